@@ -50,6 +50,8 @@ Definition step (k : kind) (o : op) (s : cst) : cst * bool :=
       | Some l' => ({| items := l'; rec := rec s ++ [x] |}, false)
       | None => ({| items := items s; rec := rec s ++ [x] |}, true)
       end
+  | KList, SetSlice i j vs =>   (* _on_add(value) with the whole list: make_set(value) records each element; then list.__setitem__ *)
+      ({| items := py_setslice i j vs (items s); rec := rec s ++ vs |}, false)
   | KSet, Add x => (add_item KSet s x, false)
   | KSet, Update vss => (fold_left (fun s vs => fold_left (add_item KSet) vs s) vss s, false)
   | _, _ => (s, false)
@@ -87,6 +89,12 @@ Record cst2 := { shared : list elt; recp : list elt; recq : list elt }.
 Definition ctor_alias (s : cst) : cst2 := {| shared := items s; recp := rec s; recq := items s |}.
 Definition append_q (x : elt) (t : cst2) : cst2 := {| shared := shared t ++ [x]; recp := recp t; recq := recq t ++ [x] |}.
 
+(* K_slice_generator:  x.f[i:j] = (a generator).  __setitem__ calls _on_add(value) first; recording goes through
+   make_set(value), which consumes the one-shot iterator, so list.__setitem__ receives an exhausted one: the slice is
+   replaced by nothing although every element was recorded. *)
+Definition setslice_gen (i j : Z) (vs : list elt) (s : cst) : cst :=
+  {| items := py_setslice i j [] (items s); rec := rec s ++ vs |}.
+
 From Krrood Require Import Base.Sx.
 Definition model_out (k : kind) (ops : list op) (vs0 : list elt) : sx :=
   let '(tr, fin) := run k ops (init k vs0) in SL [trace_sx tr; elts_sx (rec fin)].
@@ -94,3 +102,5 @@ Definition extend_self_out (fuel : nat) (vs0 : list elt) : sx :=
   match extend_live fuel 0 (init KList vs0) with None => SZ (-1) | Some s => elts_sx (items s) end.
 Definition ctor_alias_out (vs0 : list elt) (x : elt) : sx :=
   let t := append_q x (ctor_alias (init KList vs0)) in SL [elts_sx (shared t); elts_sx (recp t); elts_sx (recq t)].
+Definition slice_gen_out (i j : Z) (vs vs0 : list elt) : sx :=
+  let s := setslice_gen i j vs (init KList vs0) in SL [elts_sx (items s); elts_sx (rec s)].
